@@ -108,7 +108,14 @@ def covered(var, have):
 
 
 def symnames(symbols):
-    return {s.name.lower() for s in symbols}
+    from loki import FindVariables
+    out = set()
+    for s in symbols:
+        if hasattr(s, 'name'):
+            out.add(s.name.lower())
+        else:    # an associate selector that is an expression: every variable in it
+            out |= {v.name.lower() for v in FindVariables().visit(s)}
+    return out
 
 
 def judge_batch(batch):
@@ -247,7 +254,10 @@ def signature(setname, cls, var, loopvar, st, d, u):
 
 def run(ctx):
     L, nest = (1, 2) if ctx.quick else (2, 2)
-    kernels = [(f'k{n:05d}', (name, body)) for n, (name, body, _) in enumerate(mfgen.valid_stream(L, nest))]
+    # PRINT and unit I/O are outside the property's quantifier (scalars/arrays, loops, conditionals, SELECT CASE, WHERE,
+    # ASSOCIATE, calls): kernels containing them are not part of this stream
+    kernels = [(f'k{n:05d}', (name, body)) for n, (name, body, _) in enumerate(mfgen.valid_stream(L, nest))
+               if "'iounit'" not in repr(body) and "'print'" not in repr(body)]
     from vf.explore import seeded_order
     order = seeded_order(kernels, ctx.seed)
     batches = [order[s:s + BATCH] for s in range(0, len(order), BATCH)]
